@@ -135,10 +135,17 @@ func (env *Env) rvalue(v EV) EV {
 		h := env.fe.heapGet(st, ghostVar(g), arrSort(ghostSort(g)))
 		return EV{T: fmt.Sprintf("(select %s %s)", h, v.T), Sort: ghostSort(g), Typ: ghostGoType(g)}
 	}
+	fe := env.fe
+	fe.loadTop = ""
+	defer func() { fe.loadTop = "" }()
 	if v.Leaf != nil {
-		return env.noteLoad(EV{T: env.fe.loadField(st, v.T, v.Leaf.owner, v.Leaf.field), Typ: v.Typ})
+		return env.noteLoad(EV{T: fe.loadField(st, v.T, v.Leaf.owner, v.Leaf.field), Typ: v.Typ})
 	}
-	return env.noteLoad(EV{T: env.fe.loadAt(st, v.T, v.Typ), Typ: v.Typ})
+	t := fe.loadAt(st, v.T, v.Typ)
+	if isStructVal(v.Typ) {
+		fe.loadTop = ""
+	}
+	return env.noteLoad(EV{T: t, Typ: v.Typ})
 }
 
 func (env *Env) eval(e CExpr) EV {
@@ -247,6 +254,21 @@ func (env *Env) constEV(c *types.Const) EV {
 	return EV{}
 }
 
+// visitedKey finds the ghost visited-set of the range loop whose header is env.at.
+func (fe *FuncEnc) visitedKey(env *Env) string {
+	if env.at == nil {
+		return ""
+	}
+	for _, ins := range env.at.Instrs {
+		if nx, ok := ins.(*ssa.Next); ok {
+			if rng := fe.rangeOf[fe.val(nx.Iter)]; rng != nil {
+				return "visited:" + rng.Name()
+			}
+		}
+	}
+	return ""
+}
+
 // resolveLocal finds the value a source-level local name denotes at a loop header.
 func (fe *FuncEnc) resolveLocal(env *Env, name string) (EV, bool) {
 	h := env.at
@@ -267,8 +289,11 @@ func (fe *FuncEnc) resolveLocal(env *Env, name string) (EV, bool) {
 	if v, ok := fe.resolveAlloc(env, name); ok {
 		return v, true
 	}
-	// 3. a value bound by a DebugRef that dominates the header
-	var best *ssa.DebugRef
+	// 3. the value bound to the source variable: among all debug references to a
+	// variable of that name, the referenced SSA values that are defined before the
+	// loop (their block dominates the header). They must agree.
+	var cand ssa.Value
+	ambiguous := false
 	for _, d := range fe.debugRefs {
 		if d.IsAddr {
 			continue
@@ -280,17 +305,27 @@ func (fe *FuncEnc) resolveLocal(env *Env, name string) (EV, bool) {
 		if _, isVar := obj.(*types.Var); !isVar {
 			continue
 		}
-		if d.Block() == h || !d.Block().Dominates(h) {
+		x := d.X
+		if _, isConst := x.(*ssa.Const); isConst {
 			continue
 		}
-		if best == nil || best.Block().Dominates(d.Block()) {
-			best = d
+		if _, isParam := x.(*ssa.Parameter); isParam {
+			continue
 		}
+		ins, isIns := x.(ssa.Instruction)
+		if !isIns || ins.Block() == h || !ins.Block().Dominates(h) {
+			continue
+		}
+		if li := fe.loops[h]; li != nil && li.blocks[ins.Block()] {
+			continue
+		}
+		if cand != nil && cand != x {
+			ambiguous = true
+		}
+		cand = x
 	}
-	if best != nil {
-		if _, isParam := best.X.(*ssa.Parameter); !isParam {
-			return EV{T: fe.val(best.X), Typ: best.X.Type()}, true
-		}
+	if cand != nil && !ambiguous {
+		return EV{T: fe.val(cand), Typ: cand.Type()}, true
 	}
 	return EV{}, false
 }
@@ -440,8 +475,8 @@ func (env *Env) sel(x *CSel) EV {
 			v = EV{T: v.T, Typ: pt.Elem(), Addr: true}
 		}
 	}
-	if v.Addr && v.Leaf != nil {
-		// leaf holding a pointer: load it, then dereference
+	if v.Addr && (v.Leaf != nil || isPtrType(v.Typ)) {
+		// cell holding a pointer: load it, then dereference
 		lv := env.rvalue(v)
 		if pt, ok := lv.Typ.Underlying().(*types.Pointer); ok {
 			v = EV{T: lv.T, Typ: pt.Elem(), Addr: true}
@@ -473,7 +508,7 @@ func (env *Env) sel(x *CSel) EV {
 			if pt, ok := cur.Typ.Underlying().(*types.Pointer); ok {
 				cur = EV{T: cur.T, Typ: pt.Elem(), Addr: true}
 			}
-		} else if cur.Leaf != nil {
+		} else if cur.Leaf != nil || isPtrType(cur.Typ) {
 			lv := env.rvalue(cur)
 			if pt, ok := lv.Typ.Underlying().(*types.Pointer); ok {
 				cur = EV{T: lv.T, Typ: pt.Elem(), Addr: true}
@@ -498,6 +533,14 @@ func (env *Env) sel(x *CSel) EV {
 		}
 	}
 	return cur
+}
+
+func isPtrType(t types.Type) bool {
+	if t == nil {
+		return false
+	}
+	_, ok := t.Underlying().(*types.Pointer)
+	return ok
 }
 
 func ghostGoType(g *GhostField) types.Type {
@@ -872,6 +915,15 @@ func (env *Env) callExpr(x *CCall) EV {
 			env.errf("addr() of a non-addressable expression %s", x.Args[0])
 		}
 		return EV{T: v.T, Typ: types.NewPointer(v.Typ)}
+	case "visited":
+		// visited(k): key k has already been produced by the map iteration of the enclosing loop
+		need(1)
+		key := env.fe.visitedKey(env)
+		vis, ok := env.st.ghost[key]
+		if !ok {
+			env.errf("visited() used outside a range-over-map loop")
+		}
+		return EV{T: fmt.Sprintf("(select %s %s)", vis, arg(0).T), Typ: boolT}
 	case "in":
 		need(2)
 		return EV{T: fmt.Sprintf("(select %s %s)", arg(1).T, arg(0).T), Typ: boolT}
